@@ -75,8 +75,16 @@ class C01(E1Prop):
                     seq.insert(rng.randrange(3, len(seq)), self.gen.next(w))
                 self.script = seq
         if getattr(self, 'script', None):
-            return self.script.pop(0)
-        return self.gen.next(w)
+            op = self.script.pop(0)
+        else:
+            op = self.gen.next(w)
+        if op and op['op'] in ('deliver', 'eval') and rng.random() < 0.1:
+            # "whatever the event did": for the whole of this job the
+            # remote refuses every update of one destination branch
+            dests = ops.dest_branches(w.cfg)
+            op = dict(op, plan={'kind': 'reject', 'push': 0, 'persist': True,
+                                'ref': 'refs/heads/' + rng.choice(dests)})
+        return op
 
     def check_job(self, w, rec):
         check_chain(w, rec)
